@@ -129,12 +129,12 @@ def replay_nearest(items, root, seed):
         d = tempfile.mkdtemp(dir=root)
         try:
             names = ['c%02d' % i for i in range(nm)]
-            wav = [WUNIT * 2 * (i + 1) for i in range(n)]
+            wav = [WUNIT * 2 ** (i + 1) for i in range(n)]        # geometric grid (spec WAsc)
             pw.build_cube(d, names, wav, None, val, unc, order=rng.choice(['asc', 'desc']))
             law = fw.make_extinction([2] * 1, [3.3])
             for x2s, nearest in sorted(b['near'].items(), key=lambda kv: int(kv[0])):
                 x2 = int(x2s)
-                lam = x2 / 2.0 * WUNIT
+                lam = x2 / 4.0 * WUNIT                                # requests in quarter units (spec Probes)
                 try:
                     with fw.quiet():
                         from sedfitter.fit import Fitter
